@@ -21,7 +21,7 @@ STUB = ['transport/reactor (txsim.core)', 'Tor control server: scripted reply ge
 
 PROBES = {
     'C01': ['split-inside-crlf', 'coalesced-lines', 'reentrant-submit', 'data-line-looks-like-status',
-            'queue-depth>=4', 'percb-gets-data-block', 'line>16384', 'two-replies-one-chunk', '5xx-reply',
+            'queue-depth>=4', 'percb-gets-data-block', 'line>16384', '5xx-reply',
             'segmented-delivery'],
     'C02': ['split-inside-crlf', 'event-while-percb-inflight', 'event-while-plain-inflight', 'event-idle',
             'event-no-listener', 'listener-removed-during-delivery', 'raising-listener', 'last-listener-removed',
